@@ -7,8 +7,11 @@
    Verilator 5 evaluates a clocked block when its trigger  (clk & ~prev_clk) | (rst & ~prev_rst)  fires, where
    prev_* are per-block copies of the last seen clock/reset.  They are refreshed at every evaluation, but before the
    FIRST eval() they are captured (in _eval_initial) from the module-local copies of i_clk/i_rst, which hold power-on
-   garbage at that moment: four hidden bits of the power-on state ([hidden]).  Both blocks read pre-edge values
-   (non-blocking assignment).  *)
+   garbage at that moment: four hidden bits of the power-on state ([hidden]).  (That is the Verilated model of
+   harness/tb_harness.cpp, built with --public-flat-rw, where every module keeps its own port copies.  In hextb as CMake
+   builds it there is a single trigger pair captured from the top-level inputs, which are 1, 1 at the first eval: no edge
+   at time 1, i.e. the one value hidden = (true, true, true, true).  The theorems quantify over all sixteen.)  Both
+   blocks read pre-edge values (non-blocking assignment).  *)
 From Coq Require Import ZArith List String Bool.
 From HexVerif Require Import WMap Isa IsaMon Vexp RtlSem SimModel.
 Import ListNotations.
@@ -16,16 +19,18 @@ Local Open Scope Z_scope.
 
 (* the constants of hextb.cpp and the shape of memory.sv's write, as parameters.  [gate_from]: system-call requests are
    sampled in clock-high phases from this time on.
+   [clears_memory]: load() clears the whole memory before it reads the program (the tree as it is now); before that
+   repair the words outside the program kept their power-on contents.
    [Current]  the tree as it is now: reset over times 1..9, requests sampled from the last reset edge (time RESET_END - 1,
               when the processor is held in its start state and shows the request of the instruction at address 0);
-   [Previous] the tree between the two repairs: requests sampled only after reset (time > RESET_END), i.e. never for the
-              instruction at address 0;
+   [Previous] the tree after the first repair only: requests sampled only after reset (time > RESET_END), i.e. never for
+              the instruction at address 0; load() does not clear the memory;
    [Legacy]   the pinned tree: reset asserted from time 2 only, requests sampled on every high clock phase, memory write
               not qualified by !i_rst *)
-Record params := { reset_begin : Z; reset_end : Z; gate_from : Z; legacy_mem_write : bool }.
-Definition Current : params := {| reset_begin := 0; reset_end := 10; gate_from := 9; legacy_mem_write := false |}.
-Definition Previous : params := {| reset_begin := 0; reset_end := 10; gate_from := 11; legacy_mem_write := false |}.
-Definition Legacy : params := {| reset_begin := 1; reset_end := 10; gate_from := 0; legacy_mem_write := true |}.
+Record params := { reset_begin : Z; reset_end : Z; gate_from : Z; legacy_mem_write : bool; clears_memory : bool }.
+Definition Current : params := {| reset_begin := 0; reset_end := 10; gate_from := 9; legacy_mem_write := false; clears_memory := true |}.
+Definition Previous : params := {| reset_begin := 0; reset_end := 10; gate_from := 11; legacy_mem_write := false; clears_memory := false |}.
+Definition Legacy : params := {| reset_begin := 1; reset_end := 10; gate_from := 0; legacy_mem_write := true; clears_memory := false |}.
 
 Record hidden := { hp_clk : bool; hp_rst : bool; hm_clk : bool; hm_rst : bool }.
 (* the power-on state: registers, every memory word (load() then overwrites the loaded region), the hidden bits *)
@@ -56,16 +61,16 @@ Definition out_at (d : design) (rst : bool) (s : rstate) (n : string) : Z :=
 
 (* load(): the file must open and hold the 4-byte header (else "could not open file" / "binary has no header"); the header
    word announces the program size in words, which must not exceed the architecture's memory (else "program is larger than
-   the memory": run() is never reached and main returns 1); then that many words -- the image, NOT the debug tables that may
-   follow it -- are read into memory from word 0 (a file that ends early leaves the remaining words as they were) *)
+   the memory": run() is never reached and main returns 1); then the whole memory is cleared and that many
+   words -- the image, NOT the debug tables that may follow it -- are read into it from word 0 (a file that ends early leaves the remaining words as they were) *)
 Definition header (file : list Z) : Z :=
   match file with b0 :: b1 :: b2 :: b3 :: _ => b0 + 256 * b1 + 65536 * b2 + 16777216 * b3 | _ => 0 end.
 Definition file_loads (file : list Z) : bool := (4 <=? Z.of_nat (List.length file)) && (header file <=? MEMW).
 Definition image_bytes (file : list Z) : list Z := firstn (Z.to_nat (4 * header file)) (skipn 4 file).
 Definition loaded_words (file : list Z) : list Z := words_of_bytes (image_bytes file).
-Definition power_on (i : init) (file : list Z) : tb :=
+Definition power_on (p : params) (i : init) (file : list Z) : tb :=
   {| t_s := {| r_pc := i_pc i; r_areg := i_areg i; r_breg := i_breg i; r_oreg := i_oreg i;
-               r_mem := load_words (WMap.empty (fun a => i_bg i a mod 4294967296)) 0 (loaded_words file) |};
+               r_mem := load_words (if clears_memory p then WMap.zero else WMap.empty (fun a => i_bg i a mod 4294967296)) 0 (loaded_words file) |};
      t_h := i_hidden i; t_clk := false; t_rst := false; t_time := 0; t_cycles := 0; t_exit := 0 |}.
 
 (* one pass through the body of the while loop up to and including cycle_count++ *)
@@ -162,9 +167,11 @@ Definition isa_tb (fuel : nat) (a0 : arch) (inp : inputs) : list event * inputs 
 Definition conv_end (e : tb_end) : isa_end :=
   match e with TReturned c => IReturned c | TNoFuel => INoFuel | _ => IStuck end.
 
-(* the well-behaved runs of C06/C13: every instruction is defined, reads (and fetches) only words of the region D that the
-   loader initialised or that the run has written, produces byte addresses below 800000, and a READ does not overwrite
-   the word its own SVC is fetched from *)
+(* the monitor the simulation proof (TbProofs.tb_follows) is carried out with: it is parametrised by a region D of words on
+   which ISA memory and RTL memory are known to agree (extended by every store); every instruction is defined, reads (and
+   fetches) only words of D, produces byte addresses below 800000, and a READ does not overwrite the word its own SVC is
+   fetched from.  Since load() clears the memory the two memories agree everywhere, D is everything, and the hypothesis
+   of the theorems is [safe_mon]/[well_behaved] below (TbProofs.safe_wb) *)
 Definition is_store (x : access) : bool := match fst x with Store => true | _ => false end.
 Definition stores_of (a : arch) : list Z := map snd (filter is_store (accesses a)).
 Definition reads_defined (D : Z -> bool) (a : arch) : bool := forallb (fun x => is_store x || D (snd x)) (accesses a).
@@ -186,29 +193,36 @@ Fixpoint wb_mon (D : Z -> bool) (n : nat) (a : arch) (inp : inputs) : bool :=
       end
   end.
 Definition region (n : Z) : Z -> bool := fun x => (0 <=? x) && (x <? n).
-(* well-behaved binary + input: along its whole ISA trace from the loaded words ws (everything else zero) *)
-Definition well_behaved (nwords : Z) (ws : list Z) (inp : inputs) : Prop :=
-  forall n, wb_mon (region nwords) n (boot ws) inp = true.
-
+(* since load() clears the memory, every word outside the image is 0 on the testbench as in hexsim and in Isa.boot: no
+   bookkeeping of defined words is needed any more, only definedness, range and the READ clause *)
+Fixpoint safe_mon (n : nat) (a : arch) (inp : inputs) : bool :=
+  match n with
+  | O => true
+  | S k =>
+      match Isa.step a inp with
+      | Undefined _ => false
+      | Ok (a', inp', ev) => step_safe a a' ev && match ev with Exit _ => true | _ => safe_mon k a' inp' end
+      end
+  end.
+(* well-behaved binary + input: along its whole ISA trace from the loaded words ws (everything else zero) every
+   instruction is defined, the byte addresses it produces are below 800000, and a READ does not overwrite its own SVC *)
+Definition well_behaved (ws : list Z) (inp : inputs) : Prop := forall n, safe_mon n (boot ws) inp = true.
 
 (* the same monitor WITHOUT the clause "a READ does not overwrite the word its own SVC is fetched from": the full quantifier of
    C06/C13 (used only to state the full-strength properties next to the proved _partial ones) *)
 Definition step_safe0 (a a' : arch) (ev : event) : bool :=
   (pc a' <? 800000) && (if fetch a / 16 =? 5 then areg a' <? 800000 else true) && forallb (Z.leb 0) (stores_of a).
-Fixpoint wb_mon0 (D : Z -> bool) (n : nat) (a : arch) (inp : inputs) : bool :=
+Fixpoint safe_mon0 (n : nat) (a : arch) (inp : inputs) : bool :=
   match n with
   | O => true
   | S k =>
-      reads_defined D a &&
       match Isa.step a inp with
       | Undefined _ => false
-      | Ok (a', inp', ev) =>
-          step_safe0 a a' ev && match ev with Exit _ => true | _ => wb_mon0 (extend D a) k a' inp' end
+      | Ok (a', inp', ev) => step_safe0 a a' ev && match ev with Exit _ => true | _ => safe_mon0 k a' inp' end
       end
   end.
-Definition well_behaved0 (nwords : Z) (ws : list Z) (inp : inputs) : Prop :=
-  forall n, wb_mon0 (region nwords) n (boot ws) inp = true.
+Definition well_behaved0 (ws : list Z) (inp : inputs) : Prop := forall n, safe_mon0 n (boot ws) inp = true.
 
 (* hextb's main(): load(), then run(); None = load() threw (message on stderr, exit status 1, run() never started) *)
 Definition tb_main (p : params) (d : design) (n : nat) (max_cycles : Z) (i : init) (file : list Z) (inp : inputs) : option result :=
-  if file_loads file then Some (run p d n max_cycles (power_on i file) inp []) else None.
+  if file_loads file then Some (run p d n max_cycles (power_on p i file) inp []) else None.
